@@ -281,3 +281,25 @@ class Obj:
 
     def __repr__(self):
         return f"Obj<{self._cls.__name__}>{self._attrs}"
+
+
+def concretize(rope):
+    """bytes of a rope whose terms are all numerals (concrete-mode results); None if not possible."""
+
+    def val(t):
+        return t if isinstance(t, int) else z3.simplify(t).as_long()
+
+    out = bytearray()
+    try:
+        for sg in Rope.of(rope).segs:
+            if sg.kind == "const":
+                out += sg.a
+            elif sg.kind == "fill":
+                out += bytes([sg.a]) * val(sg.b)
+            elif sg.kind == "int":
+                out += val(sg.a).to_bytes(val(sg.b), sg.c)
+            else:
+                return None
+    except Exception:
+        return None
+    return bytes(out)
